@@ -60,7 +60,7 @@ def main():
     sys.path.insert(0, os.path.join(V.VERIF, "gen")); import modgen, tempfile, shutil
     gdir = tempfile.mkdtemp(prefix="vp-c12-", dir="/var/tmp")
     gen = []
-    for gi, fmtname in enumerate(("mod", "it", "xm", "s3m") if tier == "quick" else ("mod", "it", "xm", "s3m") * 4):
+    for gi, fmtname in enumerate(("mod", "it", "xm", "s3m") if tier == "quick" else ("mod", "it", "xm", "s3m") * 2):
         pat = modgen.empty_pattern(64, 4)
         for r in range(64):
             pat[r][0] = dict(note=rng.choice((13, 20, 25, 30)), ins=1) if r % 4 == 0 else None
